@@ -1780,18 +1780,17 @@ func (p *BinaryProtocol) WriteAnyWithDesc(desc *TypeDescriptor, val interface{},
 		v, ok := val.(string)
 		if !ok {
 			vv, ok := val.([]byte)
-			if !ok {
-				if !cast {
-					return errDismatchPrimitive
-				} else {
-					vv, err := primitive.ToString(val)
-					if err != nil {
-						return err
-					}
-					v = string(vv)
-				}
+			if ok {
+				return p.WriteBinary(vv)
 			}
-			return p.WriteBinary(vv)
+			if !cast {
+				return errDismatchPrimitive
+			}
+			s, err := primitive.ToString(val)
+			if err != nil {
+				return err
+			}
+			v = s
 		}
 		return p.WriteString(v)
 	case SET, LIST:
